@@ -212,18 +212,9 @@ def explore_task_sem(count, depth):
 
 # ------------------------------------------------------------------ threaded
 def attach_lockset(sem):
-    """Lockset monitor for a SlidingWindowSemaphore: its counters and per-tag tables may only be written by the thread holding the
-    semaphore's lock.  Engages only where the lock is found as ``_lock`` (a plain lock) with the condition ``_condition`` built on it."""
     from .. import lockset
 
-    if not lockset.is_plain_lock(getattr(sem, '_lock', None)) or not isinstance(getattr(sem, '_condition', None), threading.Condition):
-        return None
-    ol = lockset.OwnerLock()
-    st = {'violations': [], 'count': [0]}
-    sem._lock = ol
-    sem._condition = threading.Condition(ol)
-    lockset.guard(sem, ol.held_by_me, st['violations'], 'semaphore', st['count'])
-    return st
+    return lockset.attach_to_sliding_semaphore(sem)
 
 
 def threaded_case(case):
